@@ -9,7 +9,7 @@ VERIF = os.path.dirname(os.path.dirname(os.path.abspath(__file__)))
 REPO = os.environ.get("VERIF_REPO", "/repo")
 SPEC = os.path.join(VERIF, "spec")
 HARNESS = os.path.join(VERIF, "harness")
-EVID = os.path.join(VERIF, "evidence")
+EVID = os.environ.get("VERIF_EVID") or os.path.join(VERIF, "evidence")   # VERIF_EVID / VERIF_REPO: development aids (seeded-change runs on a scratch tree)
 NCPU = os.cpu_count() or 4
 
 GOENV = {
@@ -318,11 +318,21 @@ def harness_prepare():
 
 def go_build_test(ctx, pkg, tags="verif"):
     """Compile the test binary of harness package pkg against /repo's working tree."""
-    harness_prepare()
+    hdir = HARNESS
+    if os.path.realpath(REPO) != "/repo":
+        # development aid: judge a scratch tree (a seeded change in a worktree) without touching /repo
+        hdir = os.path.join(ctx.scratch, "harness")
+        if not os.path.exists(hdir):
+            shutil.copytree(HARNESS, hdir)
+            gm = open(os.path.join(hdir, "go.mod")).read().replace("=> /repo", "=> " + os.path.realpath(REPO))
+            open(os.path.join(hdir, "go.mod"), "w").write(gm)
+            shutil.copy(os.path.join(REPO, "go.sum"), os.path.join(hdir, "go.sum"))
+    else:
+        harness_prepare()
     out = os.path.join(ctx.sub("bin"), pkg.replace("/", "_") + ".test")
     cmd = [GO, "test", "-c", "-tags", tags, "-o", out, "./" + pkg]
     t = time.time()
-    p = subprocess.run(cmd, cwd=HARNESS, env=go_env(), stdout=subprocess.PIPE, stderr=subprocess.STDOUT, text=True)
+    p = subprocess.run(cmd, cwd=hdir, env=go_env(), stdout=subprocess.PIPE, stderr=subprocess.STDOUT, text=True)
     if p.returncode != 0 or not os.path.exists(out):
         raise Infra("harness build failed (%s):\n%s" % (pkg, p.stdout[-4000:]))
     ctx.log("built %s in %.1fs" % (pkg, time.time() - t))
